@@ -215,13 +215,13 @@ def demoHeap : Heap := Heap.ofList [
   .dict [("include", .imm "False"), ("label", .imm "'a'")],
   .dict [("color", .imm "'red'")]]
 
-/-- what the CRTF serialiser does today: `meta = dict(region.meta)`; `meta.update(region.visual)`;
-then `region.meta.pop('include', True)` on the CALLER's dict. -/
+/-- what the CRTF serialiser did before `fix: 90d029a` (finding F6): `meta = dict(region.meta)`;
+`meta.update(region.visual)`; then `region.meta.pop('include', True)` on the CALLER's dict. -/
 def crtfToday : Program := [
   .copyShallow (.old 2), .update .fresh (.new 0) [("color", .imm "'red'")],
   .pop .input (.old 2) "include"]
 
-/-- the repaired serialiser: the `include` flag is read from the copy. -/
+/-- the repaired serialiser: the `include` flag is read, nothing of the caller is written. -/
 def crtfRepaired : Program := [
   .copyShallow (.old 2), .update .fresh (.new 0) [("color", .imm "'red'")],
   .read (.old 2), .pop .fresh (.new 0) "include"]
@@ -307,15 +307,16 @@ theorem module_writes_import_only : ∀ s ∈ sites, s.cls = .moduleState → mo
   have := List.all_eq_true.mp hb s hs
   simpa [hc] using this
 
-/-- every other site of the API has a harmless class: with `frame_by_class`, the programs made
-of these sites leave every pre-existing object alone (given the soundness of the classes). -/
-theorem sites_classified : ∀ s ∈ sites, inScope s = true → isF6 s = false →
+/-- every site of the API has a harmless class, is on the `unknown` list, or writes module state (at
+import time only, `module_writes_import_only`): with `frame_by_class`, the programs made of the
+harmless sites leave every pre-existing object alone (given the soundness of the classes). -/
+theorem sites_classified : ∀ s ∈ sites, inScope s = true →
     s.cls.harmless = true ∨ s.cls = .unknown ∨ s.cls = .moduleState := by
-  have hb : sites.all (fun s => !inScope s || isF6 s || s.cls.harmless || s.cls == .unknown
+  have hb : sites.all (fun s => !inScope s || s.cls.harmless || s.cls == .unknown
       || s.cls == .moduleState) = true := by decide +kernel
-  intro s hs hsc hf
+  intro s hs hsc
   have := List.all_eq_true.mp hb s hs
-  simp only [hsc, hf, Bool.not_true, Bool.false_or, Bool.or_eq_true, beq_iff_eq] at this
+  simp only [hsc, Bool.not_true, Bool.false_or, Bool.or_eq_true, beq_iff_eq] at this
   rcases this with (h | h) | h
   · exact Or.inl h
   · exact Or.inr (Or.inl h)
